@@ -157,6 +157,9 @@ class C14(common.Spec):
                     finally:
                         depth[0] -= 1
                 blk.event = wrapper
+            if abort_how in ('abort', 'ctrl'):
+                # the application may finalize the circuit itself; it is still not started
+                circuit.finalize()
             do_sends('PNotStarted', dests)
             task = asyncio.create_task(circuit.run_forever())
             do_sends('PTaskCreated', dests)
@@ -192,6 +195,14 @@ class C14(common.Spec):
 
         try:
             vloop.run_virtual(main)
+        except vloop.HarnessTimeout:
+            raise
+        except Exception as err:       # noqa
+            # the scenario itself broke down (e.g. an event accepted before the start made the start
+            # fail): the phases that were not reached count as wrongly handled
+            for i in range(len(obs)):
+                if obs[i] is None:
+                    obs[i] = dict(kind='scenario_failed', err=common.exc_enum(err), delivered=-1)
         finally:
             edzed.reset_circuit()
         return obs
